@@ -442,7 +442,8 @@ class _TrialLog:
     def __call__(self, *args, **kwargs):
         if len(self.trials) >= MAX_TRIALS:
             raise Skip("work budget: more than %d trial steps" % MAX_TRIALS)
-        x, tau = args[self.pos_x], args[self.pos_tau]
+        x = args[self.pos_x] if len(args) > self.pos_x else kwargs.get("x")
+        tau = args[self.pos_tau] if len(args) > self.pos_tau else kwargs.get("tau")
         if self.trials and self.trials[-1]["x"] is x and self.trials[-1]["tau"] == tau:
             # the step functions are deterministic: repeating the identical trial repeats its outcome for ever
             raise Violation("adaptive_reaches_t_end", "the identical trial step (same state, tau=%r) is repeated: "
@@ -507,6 +508,18 @@ def check_driver_adaptive(spec, ctx):
     # ---- trial log: error test and step-size factors
     trials = log.trials
     n = len(x)
+    if not trials and len(sols) > 1:
+        # the drivers did not go through the module-level step function (hook ineffective): black-box checks only
+        ctx.flag("no_trial_log")
+        taus = np.diff(tt)
+        for k in range(len(sols) - 1):
+            if not wild:
+                _step_reference(ctx, sch, P, np.asarray(sols[k], dtype=float), float(taus[k]), sols[k + 1], "accepted_")
+            if k > 0:
+                ctx.require("step_factor_bounds", taus[k] / taus[k - 1] <= 5.0 * (1 + 1e-9),
+                            "accepted step sizes grow by %r" % (taus[k] / taus[k - 1]))
+        ctx.nontrivial = True
+        return
     k = 0
     rejected = newton_rejects = clip_lo = clip_hi = 0
     regimes = set()
@@ -732,15 +745,15 @@ SUBCHECKS = [
     Sub("tableaux", check_tableau, enum=enum_tableaux, quick=0, thorough=0, shards=4,
         rule="all 12 shipped tableaux x all rooted trees up to the documented order (main and embedded weights), "
              "exact rational arithmetic, tolerance = stated precision of the coefficients (1e-9 / 1e-11 / 1e-13)", floor=11),
-    Sub("step", check_step, strategy=lambda tier: strat_step(), enum=enum_step, quick=3000, thorough=100000,
+    Sub("step", check_step, strategy=lambda tier: strat_step(), enum=enum_step, quick=6000, thorough=100000,
         rule="12 shipped + random user DIRK/ROW tableaux x M (None/identity/dense/csr/csc/diagonal) x linear "
              "(dissipative stiff..non-stiff, general, constant) and nonlinear F x tau in [1e-3,1] with tau|F(x)| in [0.1,10]",
         floor=200),
-    Sub("driver_const", check_driver_const, strategy=lambda tier: strat_driver_const(), quick=240, thorough=6000,
+    Sub("driver_const", check_driver_const, strategy=lambda tier: strat_driver_const(), quick=480, thorough=6000,
         rule="all 12 drivers in constant-step mode (adaptive ones via tol=None), t_end on / off the grid, t0", floor=30),
-    Sub("driver_adaptive", check_driver_adaptive, strategy=lambda tier: strat_driver_adaptive(), quick=320,
+    Sub("driver_adaptive", check_driver_adaptive, strategy=lambda tier: strat_driver_adaptive(), quick=640,
         thorough=8000, rule="9 adaptive drivers x tol in [1e-4,0.3] x step_factor x tau0 x t_end", floor=40),
-    Sub("newton", check_newton, strategy=lambda tier: strat_newton(), quick=800, thorough=20000,
+    Sub("newton", check_newton, strategy=lambda tier: strat_newton(), quick=1600, thorough=20000,
         rule="rotated systems of scalar components: linear, monotone, arctan (divergent for |u0|>1.39), "
              "u^3-2u+2 (2-cycle 0<->1), u^2+1 (no root) x atol/rtol/maxiter/freeze_jac", floor=50),
 ]
@@ -750,13 +763,13 @@ def _dirk34_orders(spec, v):
     exp = KNOWN_DIRK34_RESIDUALS
     got = v.detail.get("residuals") or {}
     return (spec.get("method") == "dirk34" and v.oracle == "order_conditions" and set(got) == set(exp)
-            and all(abs(got[k] - exp[k]) <= 1e-9 for k in exp))
+            and all(abs(got[k] - exp[k]) <= 1e-13 for k in exp))
 
 
 def _dirk34_const(spec, v):
     return (spec.get("scheme", {}).get("shipped") == "dirk34" and v.oracle == "const_rhs_exact"
             and v.detail.get("which") == "x_new"
-            and abs(v.detail.get("weight_sum", 0.0) - KNOWN_DIRK34_WEIGHT_SUM) <= 1e-6)
+            and abs(v.detail.get("weight_sum", 0.0) - KNOWN_DIRK34_WEIGHT_SUM) <= 1e-10)
 
 
 KNOWN_DIRK34_WEIGHT_SUM = 0.7685298292769537 + 0.09666483609791597 + 0.1558983899988677
